@@ -202,6 +202,38 @@ def run(R):
                                                               "is no longer transitive" % bad[0], [bad[0].split(" ")[0]])
         else:
             R.ok("C16.numcmp", "evaluate|no-real-to-int", "no REAL -> INT conversion in the comparison arm or its helpers", ev.loc())
+    # the only values a comparison makes up itself are the INT operand widened to REAL (either side) and the text operand parsed as a
+    # timestamp: every other re-typing of an operand (text read as a number, case folding, rounding ..) gives WHERE an equality / order
+    # that GROUP BY, DISTINCT, MIN / MAX and the join index (which use Value's own Eq / Ord / Hash) do not share
+    R.rule("C16.coerce", "the Compare arm hands the evaluated operands to Value's comparison unchanged, except INT -> REAL widening (a cast of "
+                         "the Int payload) and text -> timestamp parsing: no other Value is constructed for a comparison operand")
+    if region is not None:
+        made = []
+        for i, st in ev.stmts():
+            if i not in region or st["k"] != "assign" or st["rv"]["k"] != "aggr" or st["rv"].get("adt") != "sqlgrep::model::Value":
+                continue
+            var = st["rv"].get("variant")
+            if var in ("Bool", "Null"):
+                continue        # the result of the comparison
+            ok_widen = False
+            if var == "Float" and st["rv"]["ops"]:
+                for o in F.origins(ev, st["rv"]["ops"][0], depth=8, through_calls=False):
+                    if o.kind == "cast" and o.extra == "i64->f64":
+                        ok_widen = True
+            made.append((i, st, var, ok_widen))
+        badm = [(i, st, var) for i, st, var, okw in made if not okw]
+        parses = [c for c in ev.calls if c.bb in region and re.search(r"str>::parse$|::from_str$|to_lowercase$|to_uppercase$|::trim\w*$|f64>::(round|floor|ceil|trunc)$", short(c.name))]
+        if badm:
+            i, st, var = badm[0]
+            R.violation("C16.coerce", "evaluate|compare-makes-value",
+                        "the Compare arm constructs a Value::%s for a comparison operand that is not the INT -> REAL widening: WHERE then compares "
+                        "by another equality / order than GROUP BY, DISTINCT, MIN / MAX and join keys (which use Value's own Eq / Ord / Hash)%s"
+                        % (var, " (through %s)" % short(parses[0].name).split("::")[-1] if parses else ""), ["%s:%d" % (ev.file, st["line"])])
+        elif parses:
+            R.violation("C16.coerce", "evaluate|compare-transforms",
+                        "the Compare arm transforms an operand with %s before comparing" % short(parses[0].name), [parses[0].loc()])
+        else:
+            R.ok("C16.coerce", "evaluate|compare", "%d operand values made in the Compare arm, all INT -> REAL widenings" % len(made), ev.loc())
     # MIN / MAX use the same total order as WHERE, ORDER of groups and PERCENTILE: no numeric side channel
     from . import rules_c04
     rules_c04._minmax(R, "C16.minmax")
